@@ -26,19 +26,27 @@ from .common import devar, share_rule
 
 
 def check(model: Model, rep: Report, tier: str):
-    m1(model, rep)
-    m2(model, rep)
+    with rep.isolated():
+        m1(model, rep)
+    with rep.isolated():
+        m2(model, rep)
     from .c11 import f3
-    f3(model, rep, "C13.M3")
+    with rep.isolated():
+        f3(model, rep, "C13.M3")
     rep.rules_text["C13.M3"] = ("blocks of the multi-round circuit follow the rounds list in order, each built with the caller's description and initial state, unrolled and flattened, "
                                 "with the QUTRIT calibration block last (= C11.F3); the experiment kernel chains one kernel per round in the same order and the calibration kernel last (= C12.X1)")
-    share_rule(rep, model, x1, "C13.M3", rep.rules_text["C13.M3"])
-    share_rule(rep, model, lambda m, r: p1(m, r, "C13.M1"), "C13.M1", rep.rules_text.get("C13.M1", ""))
-    share_rule(rep, model, x2, "C13.M1", rep.rules_text.get("C13.M1", ""))
-    share_rule(rep, model, x3, "C13.M1", rep.rules_text.get("C13.M1", ""))
-    share_rule(rep, model, x4, "C13.M4", "what the experiment kernel reports for a block of n rounds is read from THE kernel of that block (selected by its own round count, over the "
-                                         "whole kernel list) and translated per experiment repetition by the cycle length (= C12.X4): a getter that answers with another block's "
-                                         "indices disagrees with the circuit block by block even when all totals agree")
+    with rep.isolated():
+        share_rule(rep, model, x1, "C13.M3", rep.rules_text["C13.M3"])
+    with rep.isolated():
+        share_rule(rep, model, lambda m, r: p1(m, r, "C13.M1"), "C13.M1", rep.rules_text.get("C13.M1", ""))
+    with rep.isolated():
+        share_rule(rep, model, x2, "C13.M1", rep.rules_text.get("C13.M1", ""))
+    with rep.isolated():
+        share_rule(rep, model, x3, "C13.M1", rep.rules_text.get("C13.M1", ""))
+    with rep.isolated():
+        share_rule(rep, model, x4, "C13.M4", "what the experiment kernel reports for a block of n rounds is read from THE kernel of that block (selected by its own round count, over the "
+                                             "whole kernel list) and translated per experiment repetition by the cycle length (= C12.X4): a getter that answers with another block's "
+                                             "indices disagrees with the circuit block by block even when all totals agree")
 
 
 def _measure_emits(model: Model, fname: str, module: str = CC):
